@@ -1,6 +1,217 @@
-//! C04 — stub (to be written; see /verif/harness/AUTHORING.md and DESIGN.md §3 C04)
-use vengine::Property;
+//! C04 — invalid hyper-parameters are rejected with an error before any training.
+//!
+//! A hand-transcribed table (`builders::registry`, from DESIGN Appendix A, each row re-verified
+//! against the setter's doc comment, the struct-level docs and the crate's error texts) gives the
+//! *documented* range of every numeric parameter of every `ParamGuard` builder of the workspace.
+//! A case is one builder plus a full assignment taken from the boundary grids of its parameters.
+//! The expectation is computed from the table by the harness' own comparisons; linfa is observed
+//! through `check_ref`, `check`, and `fit` / `fit_with` / `transform` on the *unchecked* builder.
+
+pub mod builders;
+pub mod core;
+pub mod data;
+pub mod spec;
+
+use crate::core::Ctx;
+use crate::spec::{combine, Expect, ParamSpec};
+use proptest::prelude::*;
+use serde::{Deserialize, Serialize};
+use vengine::gen::idx;
+use vengine::{enum_sub, prop_sub, Obs, Property, Tier};
+
+#[derive(Debug, Clone, Serialize, Deserialize)]
+pub struct Case {
+    /// builder id (see `builders::registry`)
+    pub builder: String,
+    /// one value per parameter, in the order of the builder's table row
+    pub vals: Vec<f64>,
+    /// seed of the tiny dataset / of linfa's generators
+    pub seed: u64,
+}
+
+pub struct Builder {
+    pub id: &'static str,
+    pub params: Vec<ParamSpec>,
+    /// cross-parameter constraints of the documented range (`min <= max`), `In` when there are none
+    pub cross: fn(&[f64]) -> Expect,
+    /// recognises assignments whose only out-of-range reason is a recorded defect
+    pub narrow: fn(&[f64]) -> Option<&'static str>,
+    pub run: fn(&Ctx, &mut Obs),
+}
+
+pub fn no_cross(_: &[f64]) -> Expect {
+    Expect::In
+}
+pub fn no_narrow(_: &[f64]) -> Option<&'static str> {
+    None
+}
+
+fn check_case(c: &Case, obs: &mut Obs) {
+    let reg = builders::registry();
+    let Some(b) = reg.iter().find(|b| b.id == c.builder) else {
+        obs.skip("unknown_builder");
+        return;
+    };
+    if b.params.len() != c.vals.len() || c.vals.iter().any(|v| !v.is_finite()) {
+        obs.skip("malformed_case");
+        return;
+    }
+    let per: Vec<Expect> = b.params.iter().zip(&c.vals).map(|(p, v)| p.expect(*v)).collect();
+    let cross = (b.cross)(&c.vals);
+    let expect = combine(per.iter().copied().chain(std::iter::once(cross)));
+    let fit_safe = b.params.iter().zip(&c.vals).all(|(p, v)| p.is_safe(*v));
+    let n_out = per.iter().filter(|e| **e == Expect::Out).count() + usize::from(cross == Expect::Out);
+    let n_in_nondefault = b
+        .params
+        .iter()
+        .zip(&c.vals)
+        .zip(&per)
+        .filter(|((p, v), e)| **e == Expect::In && v.to_bits() != p.default.to_bits())
+        .count();
+    let n_nondefault = b.params.iter().zip(&c.vals).filter(|(p, v)| v.to_bits() != p.default.to_bits()).count();
+
+    match expect {
+        Expect::In => obs.class("expect_valid"),
+        Expect::Out => obs.class("expect_invalid"),
+        Expect::Amb => obs.class("expect_ambiguous_bound_consistency_only"),
+    }
+    obs.class_if(n_out >= 2, "two_or_more_out_of_range");
+    obs.class_if(cross == Expect::Out, "cross_constraint_violated");
+    obs.class_if(n_nondefault == 0, "all_default");
+    obs.class_if(expect == Expect::In && fit_safe, "valid_and_trainable");
+    // NT rule of the design: at least one out-of-range value together with at least one in-range non-default value
+    obs.nontrivial_if(n_out >= 1 && n_in_nondefault >= 1);
+
+    let narrow = if expect == Expect::Out { (b.narrow)(&c.vals) } else { None };
+    let cx = Ctx {
+        id: b.id,
+        vals: &c.vals,
+        names: b.params.iter().map(|p| p.name).collect(),
+        expect,
+        fit_safe,
+        narrow,
+        seed: c.seed,
+    };
+    obs.class(cx.cls(match expect {
+        Expect::In => "valid",
+        Expect::Out => "invalid",
+        Expect::Amb => "ambiguous",
+    }));
+    (b.run)(&cx, obs);
+}
+
+// ------------------------------------------------------------------------------------------------
+// generators
+
+/// every single-parameter boundary row: one parameter walks its grid, the others stay at their default
+fn single_rows() -> Vec<Case> {
+    let mut out = vec![];
+    for b in builders::registry() {
+        let defaults: Vec<f64> = b.params.iter().map(|p| p.default).collect();
+        out.push(Case { builder: b.id.to_string(), vals: defaults.clone(), seed: 1 });
+        for (i, p) in b.params.iter().enumerate() {
+            for (k, g) in p.grid().into_iter().enumerate().skip(1) {
+                let mut vals = defaults.clone();
+                vals[i] = g;
+                out.push(Case { builder: b.id.to_string(), vals, seed: (i * 31 + k) as u64 });
+            }
+        }
+    }
+    out
+}
+
+/// every pair of parameters × every pair of grid values, the others at their default
+fn pair_rows() -> Vec<Case> {
+    let mut out = vec![];
+    for b in builders::registry() {
+        let defaults: Vec<f64> = b.params.iter().map(|p| p.default).collect();
+        for i in 0..b.params.len() {
+            for j in (i + 1)..b.params.len() {
+                let gi = b.params[i].grid();
+                let gj = b.params[j].grid();
+                for (a, x) in gi.iter().enumerate().skip(1) {
+                    for (c, y) in gj.iter().enumerate().skip(1) {
+                        let mut vals = defaults.clone();
+                        vals[i] = *x;
+                        vals[j] = *y;
+                        out.push(Case { builder: b.id.to_string(), vals, seed: (a * 17 + c) as u64 });
+                    }
+                }
+            }
+        }
+    }
+    out
+}
+
+/// the full product of the grids ("every parameter in combination"), for every builder whose product has at most `limit` points
+fn full_product(limit: usize) -> Vec<Case> {
+    let mut out = vec![];
+    for b in builders::registry() {
+        let grids: Vec<Vec<f64>> = b.params.iter().map(|p| p.grid()).collect();
+        let total: usize = grids.iter().map(|g| g.len()).product();
+        if total > limit {
+            continue;
+        }
+        for mut k in 0..total {
+            let mut vals = Vec::with_capacity(grids.len());
+            for g in &grids {
+                vals.push(g[k % g.len()]);
+                k /= g.len();
+            }
+            out.push(Case { builder: b.id.to_string(), vals, seed: (out.len() % 7) as u64 });
+        }
+    }
+    out
+}
+
+/// random full assignments. `mode` steers the share of verdicts: all values in range / exactly one
+/// parameter anywhere on its grid / every parameter anywhere on its grid.
+fn combo_strategy() -> impl Strategy<Value = Case> {
+    let n = builders::registry().len();
+    (any::<u16>(), 0u8..8, proptest::collection::vec(any::<u16>(), 12), any::<u16>(), 0u64..16).prop_map(
+        move |(bi, mode, picks, which, seed)| {
+            let reg = builders::registry();
+            let b = &reg[idx(bi, n)];
+            let k = b.params.len();
+            let free = idx(which, k.max(1));
+            let vals = b
+                .params
+                .iter()
+                .enumerate()
+                .map(|(i, p)| {
+                    let g = p.grid();
+                    let pick = picks.get(i).copied().unwrap_or(0);
+                    let anywhere = g[idx(pick, g.len())];
+                    let inside: Vec<f64> = g.iter().copied().filter(|v| p.expect(*v) == Expect::In).collect();
+                    let trainable: Vec<f64> = inside.iter().copied().filter(|v| p.is_safe(*v)).collect();
+                    let in_range = if inside.is_empty() { p.default } else { inside[idx(pick, inside.len())] };
+                    let safe = if trainable.is_empty() { p.default } else { trainable[idx(pick, trainable.len())] };
+                    match mode {
+                        0 | 1 => safe,                                   // valid and trainable
+                        2 => in_range,                                   // valid, bounds included
+                        3 | 4 => if i == free { anywhere } else { safe } // one parameter free
+                        _ => anywhere,
+                    }
+                })
+                .collect();
+            Case { builder: b.id.to_string(), vals, seed }
+        },
+    )
+}
 
 pub fn property() -> Property {
-    Property { id: "C04", rule: "", assumptions: vec![], subs: vec![] }
+    Property {
+        id: "C04",
+        rule: "case = (builder, one value per numeric parameter from the boundary grid {far below, just below, at, just inside, far inside, at / just \
+               above an upper bound} of its documented range, dataset seed). Enumerated: every single-parameter boundary row and every pair of \
+               parameters x pair of grid values (others default), and the full product of all grids for every builder whose product has <= 2500 points (quick) / for every builder (thorough); random: full assignments (all-valid / one free parameter / all free). \
+               Non-trivial = at least one out-of-range value together with at least one in-range non-default value; distinct = distinct canonical JSON",
+        assumptions: builders::assumptions(),
+        subs: vec![
+            prop_sub("random_combinations", 40000, 1200000, |_t: Tier| combo_strategy(), check_case).chunks(16),
+            enum_sub("full_product", |t: Tier| full_product(t.pick(2500, 400_000)), check_case).chunks(16),
+            enum_sub("pair_rows", |_t: Tier| pair_rows(), check_case).chunks(16),
+            enum_sub("single_rows", |_t: Tier| single_rows(), check_case).chunks(8),
+        ],
+    }
 }
